@@ -1670,6 +1670,11 @@ func (e *stageExec) oracleNotLost() {
 			continue
 		}
 		if _, err := os.Stat(filepath.Join(r.root, name) + ".wait"); err == nil {
+			// held: a restart finds a held file only through its companion
+			if _, err := os.Stat(filepath.Join(r.root, name) + ".cmp"); err == nil {
+				continue
+			}
+			e.fails = append(e.fails, fmt.Sprintf("validated-lost: %s was reported as passed/waiting and is held as .wait, but its companion is gone: a restart will not find it", name))
 			continue
 		}
 		e.fails = append(e.fails, fmt.Sprintf("validated-lost: %s was reported as passed/waiting but is neither logged nor held as .wait", name))
